@@ -313,3 +313,722 @@ Proof.
   cbv zeta. split; [repeat constructor|]. split; [intros H; inversion H; discriminate|].
   split; reflexivity.
 Qed.
+
+(* ==== BEGIN x_scale appendix (generated by work/x_scale/gen_appendix.py) ==== *)
+(* Source translator x_scale (round 3): what harness/translate/x_scale.py read in the scale marginals of
+   matrix/measure.py (and stripe/measure.py::_ScaledCounts) on this run denotes Model/Scale.v's per-vector
+   definitions (statements: Proofs/GenAgreeScale*.v). *)
+From Coq Require String.
+From CC Require Base.VecExp Model.Scale Gen.ScaleSrc Gen.StripeScaleSrc Proofs.GenAgreeVecTac Proofs.GenAgreeScaleTac Proofs.GenAgreeScaleMean Proofs.GenAgreeScaleVar Proofs.GenAgreeScaleMedian Proofs.GenAgreeScaleMedianBlocks Proofs.GenAgreeScaleStrand Proofs.GenAgreeScaleStrandMedian.
+Section GenAgreeXScale_C14.   (* scopes and imports below end with the section *)
+Import Coq.Strings.String CC.Base.VecExp CC.Model.Scale CC.Gen.ScaleSrc CC.Gen.StripeScaleSrc CC.Proofs.GenAgreeVecTac CC.Proofs.GenAgreeScaleTac CC.Proofs.GenAgreeScaleMean CC.Proofs.GenAgreeScaleVar CC.Proofs.GenAgreeScaleMedian CC.Proofs.GenAgreeScaleMedianBlocks CC.Proofs.GenAgreeScaleStrand CC.Proofs.GenAgreeScaleStrandMedian.
+Import Coq.Lists.List.ListNotations CC.Base.XQ CC.Base.ListX.
+Local Close Scope Q_scope.
+Local Open Scope string_scope.
+Local Open Scope nat_scope.
+
+Theorem C14_gen_ScaleMean__opposing_numeric_values :
+  match vsrc_ScaleMean__opposing_numeric_values with
+  | Some e => forall (rows : bool) rvals cvals rest srt,
+      veval (env_scale (orient_name rows) (dims_attrs rvals cvals ++ rest) no_var srt) e
+      = VV (if rows then cvals else rvals)
+  | None => True
+  end.
+Proof. exact gen_ScaleMean__opposing_numeric_values. Qed.
+Print Assumptions C14_gen_ScaleMean__opposing_numeric_values.
+
+Theorem C14_gen_ScaleMean_is_defined :
+  match vsrc_ScaleMean_is_defined with
+  | Some e => forall (rows : bool) rvals cvals rest srt,
+      veval (env_scale (orient_name rows) (dims_attrs rvals cvals ++ rest) no_var srt) e
+      = VB (any_value (if rows then cvals else rvals))
+  | None => True
+  end.
+Proof. exact gen_ScaleMean_is_defined. Qed.
+Print Assumptions C14_gen_ScaleMean_is_defined.
+
+Theorem C14_gen_ScaleMean__weighted_mean :
+  match vsrc_ScaleMean__weighted_mean with
+  | Some e => forall props vals srt, List.length props = List.length vals ->
+      veval (mkVenv (var2 "proportions" (VV props) "values" (VV vals)) no_var no_get no_call srt) e
+      = VS (wmean props vals)
+  | None => True
+  end.
+Proof. exact gen_ScaleMean__weighted_mean. Qed.
+Print Assumptions C14_gen_ScaleMean__weighted_mean.
+
+Theorem C14_gen_ScaleMean__proportions_rows :
+  match vsrc_ScaleMean__proportions with
+  | Some e => forall nc C0 B0 C1 B1 rvals cvals srt,
+      List.length C0 = List.length B0 -> List.length C1 = List.length B1 ->
+      veval (env_scale "MO.ROWS" (dims_attrs rvals cvals ++ mean_attrs_rows nc C0 B0 C1 B1) no_var srt) e
+      = VL [VM nc (map2 pdiv C0 B0); VM nc (map2 pdiv C1 B1)]
+  | None => True
+  end.
+Proof. exact gen_ScaleMean__proportions_rows. Qed.
+Print Assumptions C14_gen_ScaleMean__proportions_rows.
+
+Theorem C14_gen_ScaleMean__proportions_columns :
+  match vsrc_ScaleMean__proportions with
+  | Some e => forall nc ncs C0 B0 C1 B1 rvals cvals srt,
+      List.length C0 = List.length B0 -> List.length C1 = List.length B1 ->
+      veval (env_scale "MO.COLUMNS" (dims_attrs rvals cvals ++ mean_attrs_cols nc ncs C0 B0 C1 B1) no_var srt) e
+      = VL [VM nc (map2 pdiv C0 B0); VM ncs (map2 pdiv C1 B1)]
+  | None => True
+  end.
+Proof. exact gen_ScaleMean__proportions_columns. Qed.
+Print Assumptions C14_gen_ScaleMean__proportions_columns.
+
+Theorem C14_gen_ScaleMean_blocks_rows :
+  match vsrc_ScaleMean_blocks with
+  | Some e => forall nc C0 B0 C1 B1 rvals cvals srt,
+      any_value cvals = true -> List.length cvals = nc ->
+      wf_mat nc C0 -> wf_mat nc B0 -> List.length C0 = List.length B0 ->
+      wf_mat nc C1 -> wf_mat nc B1 -> List.length C1 = List.length B1 ->
+      veval (env_scale "MO.ROWS" (dims_attrs rvals cvals ++ mean_attrs_rows nc C0 B0 C1 B1) no_var srt) e
+      = VL [VV (map2 (fun c b => scale_mean_vec c b cvals) C0 B0);
+            VV (map2 (fun c b => scale_mean_vec c b cvals) C1 B1)]
+  | None => True
+  end.
+Proof. exact gen_ScaleMean_blocks_rows. Qed.
+Print Assumptions C14_gen_ScaleMean_blocks_rows.
+
+Theorem C14_gen_ScaleMean_blocks_columns :
+  match vsrc_ScaleMean_blocks with
+  | Some e => forall nr nc ncs C0 B0 C1 B1 rvals cvals srt,
+      any_value rvals = true -> List.length rvals = nr ->
+      wf_mat nc C0 -> wf_mat nc B0 -> List.length C0 = nr -> List.length B0 = nr ->
+      wf_mat ncs C1 -> wf_mat ncs B1 -> List.length C1 = nr -> List.length B1 = nr ->
+      veval (env_scale "MO.COLUMNS" (dims_attrs rvals cvals ++ mean_attrs_cols nc ncs C0 B0 C1 B1) no_var srt) e
+      = VL [VV (tab nc (fun j => scale_mean_vec (mcol C0 j) (mcol B0 j) rvals));
+            VV (tab ncs (fun j => scale_mean_vec (mcol C1 j) (mcol B1 j) rvals))]
+  | None => True
+  end.
+Proof. exact gen_ScaleMean_blocks_columns. Qed.
+Print Assumptions C14_gen_ScaleMean_blocks_columns.
+
+Theorem C14_gen_ScaleMean_blocks_undefined :
+  match vsrc_ScaleMean_blocks with
+  | Some e => forall (rows : bool) rvals cvals rest srt,
+      any_value (if rows then cvals else rvals) = false ->
+      veval (env_scale (orient_name rows) (dims_attrs rvals cvals ++ rest) no_var srt) e = VErr
+  | None => True
+  end.
+Proof. exact gen_ScaleMean_blocks_undefined. Qed.
+Print Assumptions C14_gen_ScaleMean_blocks_undefined.
+
+Theorem C14_gen_wiring_scale_marginals :
+  wired vsrc_wiring_rows_scale_mean "_ScaleMean" "MO.ROWS" /\
+  wired vsrc_wiring_columns_scale_mean "_ScaleMean" "MO.COLUMNS" /\
+  wired vsrc_wiring_rows_scale_mean_stddev "_ScaleMeanStddev" "MO.ROWS" /\
+  wired vsrc_wiring_columns_scale_mean_stddev "_ScaleMeanStddev" "MO.COLUMNS" /\
+  wired vsrc_wiring_rows_scale_mean_stderr "_ScaleMeanStderr" "MO.ROWS" /\
+  wired vsrc_wiring_columns_scale_mean_stderr "_ScaleMeanStderr" "MO.COLUMNS" /\
+  wired vsrc_wiring_rows_scale_median "_ScaleMedian" "MO.ROWS" /\
+  wired vsrc_wiring_columns_scale_median "_ScaleMedian" "MO.COLUMNS".
+Proof. exact gen_wiring_scale_marginals. Qed.
+Print Assumptions C14_gen_wiring_scale_marginals.
+
+Theorem C14_gen_ScaleMeanStddev_is_defined :
+  match vsrc_ScaleMeanStddev_is_defined with
+  | Some e => forall (rows : bool) rvals cvals rest srt,
+      veval (env_scale (orient_name rows) (dims_attrs rvals cvals ++ rest) no_var srt) e
+      = VB (any_value (if rows then cvals else rvals))
+  | None => True
+  end.
+Proof. exact gen_ScaleMeanStddev_is_defined. Qed.
+Print Assumptions C14_gen_ScaleMeanStddev_is_defined.
+
+Theorem C14_gen_ScaleMeanStddev__counts_rows :
+  match vsrc_ScaleMeanStddev__counts with
+  | Some e => forall nc C0 C1 means0 means1 rvals cvals srt,
+      veval (env_scale "MO.ROWS" (dims_attrs rvals cvals ++ var_attrs_rows nc C0 C1 means0 means1) no_var srt) e
+      = VL [VM nc C0; VM nc C1]
+  | None => True
+  end.
+Proof. exact gen_ScaleMeanStddev__counts_rows. Qed.
+Print Assumptions C14_gen_ScaleMeanStddev__counts_rows.
+
+Theorem C14_gen_ScaleMeanStddev__counts_columns :
+  match vsrc_ScaleMeanStddev__counts with
+  | Some e => forall nc ncs C0 C1 means0 means1 rvals cvals srt,
+      veval (env_scale "MO.COLUMNS" (dims_attrs rvals cvals ++ var_attrs_cols nc ncs C0 C1 means0 means1) no_var srt) e
+      = VL [VM nc C0; VM ncs C1]
+  | None => True
+  end.
+Proof. exact gen_ScaleMeanStddev__counts_columns. Qed.
+Print Assumptions C14_gen_ScaleMeanStddev__counts_columns.
+
+Theorem C14_gen_ScaleMeanStddev__rows_weighted_mean_stddev :
+  match vsrc_ScaleMeanStddev__rows_weighted_mean_stddev with
+  | Some e => forall nc C vals means srt,
+      List.length vals = nc -> wf_mat nc C -> List.length means = List.length C ->
+      veval (mkVenv (var3 "counts" (VM nc C) "values" (VV vals) "scale_mean" (VV means)) no_var no_get no_call srt) e
+      = root_vec (List.length C =? 0) (rows_var_vec vals C means)
+  | None => True
+  end.
+Proof. exact gen_ScaleMeanStddev__rows_weighted_mean_stddev. Qed.
+Print Assumptions C14_gen_ScaleMeanStddev__rows_weighted_mean_stddev.
+
+Theorem C14_gen_ScaleMeanStddev__columns_weighted_mean_stddev :
+  match vsrc_ScaleMeanStddev__columns_weighted_mean_stddev with
+  | Some e => forall nc C vals means srt,
+      List.length vals = List.length C -> wf_mat nc C -> List.length means = nc ->
+      veval (mkVenv (var3 "counts" (VM nc C) "values" (VV vals) "scale_mean" (VV means)) no_var no_get no_call srt) e
+      = root_vec (nc =? 0) (cols_var_vec nc vals C means)
+  | None => True
+  end.
+Proof. exact gen_ScaleMeanStddev__columns_weighted_mean_stddev. Qed.
+Print Assumptions C14_gen_ScaleMeanStddev__columns_weighted_mean_stddev.
+
+Theorem C14_gen_ScaleMeanStddev_blocks_rows :
+  match vsrc_ScaleMeanStddev_blocks with
+  | Some e => forall nc C0 C1 means0 means1 rvals cvals srt,
+      any_value cvals = true -> List.length cvals = nc ->
+      wf_mat nc C0 -> List.length means0 = List.length C0 ->
+      wf_mat nc C1 -> List.length means1 = List.length C1 ->
+      veval (env_scale "MO.ROWS" (dims_attrs rvals cvals ++ var_attrs_rows nc C0 C1 means0 means1) no_var srt) e
+      = VL [root_vec (List.length C0 =? 0) (rows_var_vec cvals C0 means0);
+            root_vec (List.length C1 =? 0) (rows_var_vec cvals C1 means1)]
+  | None => True
+  end.
+Proof. exact gen_ScaleMeanStddev_blocks_rows. Qed.
+Print Assumptions C14_gen_ScaleMeanStddev_blocks_rows.
+
+Theorem C14_gen_ScaleMeanStddev_blocks_columns :
+  match vsrc_ScaleMeanStddev_blocks with
+  | Some e => forall nr nc ncs C0 C1 means0 means1 rvals cvals srt,
+      any_value rvals = true -> List.length rvals = nr ->
+      wf_mat nc C0 -> List.length C0 = nr -> List.length means0 = nc ->
+      wf_mat ncs C1 -> List.length C1 = nr -> List.length means1 = ncs ->
+      veval (env_scale "MO.COLUMNS" (dims_attrs rvals cvals ++ var_attrs_cols nc ncs C0 C1 means0 means1) no_var srt) e
+      = VL [root_vec (nc =? 0) (cols_var_vec nc rvals C0 means0);
+            root_vec (ncs =? 0) (cols_var_vec ncs rvals C1 means1)]
+  | None => True
+  end.
+Proof. exact gen_ScaleMeanStddev_blocks_columns. Qed.
+Print Assumptions C14_gen_ScaleMeanStddev_blocks_columns.
+
+Theorem C14_gen_ScaleMeanStddev_blocks_undefined :
+  match vsrc_ScaleMeanStddev_blocks with
+  | Some e => forall (rows : bool) rvals cvals rest srt,
+      any_value (if rows then cvals else rvals) = false ->
+      veval (env_scale (orient_name rows) (dims_attrs rvals cvals ++ rest) no_var srt) e = VErr
+  | None => True
+  end.
+Proof. exact gen_ScaleMeanStddev_blocks_undefined. Qed.
+Print Assumptions C14_gen_ScaleMeanStddev_blocks_undefined.
+
+Theorem C14_gen_ScaleMeanStderr_is_defined :
+  match vsrc_ScaleMeanStderr_is_defined with
+  | Some e => forall (rows : bool) dsd dmg sd0 sd1 mg0 mg1 srt,
+      veval (env_scale (orient_name rows) (stderr_attrs (orient_word rows) dsd dmg sd0 sd1 mg0 mg1) no_var srt) e
+      = VB (dsd && dmg)
+  | None => True
+  end.
+Proof. exact gen_ScaleMeanStderr_is_defined. Qed.
+Print Assumptions C14_gen_ScaleMeanStderr_is_defined.
+
+Theorem C14_gen_ScaleMeanStderr_blocks :
+  match vsrc_ScaleMeanStderr_blocks with
+  | Some e => forall (rows : bool) sd0 sd1 mg0 mg1 srt,
+      List.length sd0 = List.length mg0 -> List.length sd1 = List.length mg1 ->
+      veval (env_scale (orient_name rows) (stderr_attrs (orient_word rows) true true sd0 sd1 mg0 mg1) no_var srt) e
+      = VL [VRV (stderr_vec sd0 mg0); VRV (stderr_vec sd1 mg1)]
+  | None => True
+  end.
+Proof. exact gen_ScaleMeanStderr_blocks. Qed.
+Print Assumptions C14_gen_ScaleMeanStderr_blocks.
+
+Theorem C14_gen_ScaleMeanStderr_blocks_undefined :
+  match vsrc_ScaleMeanStderr_blocks with
+  | Some e => forall (rows : bool) dsd dmg sd0 sd1 mg0 mg1 srt,
+      dsd && dmg = false ->
+      veval (env_scale (orient_name rows) (stderr_attrs (orient_word rows) dsd dmg sd0 sd1 mg0 mg1) no_var srt) e
+      = VErr
+  | None => True
+  end.
+Proof. exact gen_ScaleMeanStderr_blocks_undefined. Qed.
+Print Assumptions C14_gen_ScaleMeanStderr_blocks_undefined.
+
+Theorem C14_gen_ScaleMedian_is_defined :
+  match vsrc_ScaleMedian_is_defined with
+  | Some e => forall (rows : bool) rvals cvals rest srt,
+      veval (env_scale (orient_name rows) (dims_attrs rvals cvals ++ rest) no_var srt) e
+      = VB (any_value (if rows then cvals else rvals))
+  | None => True
+  end.
+Proof. exact gen_ScaleMedian_is_defined. Qed.
+Print Assumptions C14_gen_ScaleMedian_is_defined.
+
+Theorem C14_gen_ScaleMedian__weighted_median :
+  match vsrc_ScaleMedian__weighted_median with
+  | Some e => forall cs (vs : list Q) srt,
+      List.length cs = List.length vs -> List.length cs <> 0 -> Forall nonneg_count cs ->
+      vagrees (veval (mkVenv (var2 "sorted_counts" (VV cs) "sorted_values" (VV (map Fin vs)))
+                             no_var no_get no_call srt) e)
+              (VS (weighted_median cs vs))
+  | None => True
+  end.
+Proof. exact gen_ScaleMedian__weighted_median. Qed.
+Print Assumptions C14_gen_ScaleMedian__weighted_median.
+
+Theorem C14_gen_ScaleMedian__values_sort_order :
+  match vsrc_ScaleMedian__values_sort_order with
+  | Some e => forall (rows : bool) rvals cvals rest srt,
+      argsort_ok (if rows then cvals else rvals) (srt (if rows then cvals else rvals)) ->
+      exists ord,
+        veval (env_scale (orient_name rows) (dims_attrs rvals cvals ++ rest) no_var srt) e = VIV ord
+        /\ valid_order (if rows then cvals else rvals) ord = true
+        /\ ord = filter (fun i => negb (is_nan (vnth (if rows then cvals else rvals) i)))
+                        (srt (if rows then cvals else rvals))
+  | None => True
+  end.
+Proof. exact gen_ScaleMedian__values_sort_order. Qed.
+Print Assumptions C14_gen_ScaleMedian__values_sort_order.
+
+Theorem C14_gen_ScaleMedian__sorted_values :
+  match vsrc_ScaleMedian__sorted_values with
+  | Some e => forall (rows : bool) rvals cvals rest srt,
+      argsort_ok (if rows then cvals else rvals) (srt (if rows then cvals else rvals)) ->
+      veval (env_scale (orient_name rows) (dims_attrs rvals cvals ++ rest) no_var srt) e
+      = VV (map (vnth (if rows then cvals else rvals))
+                (filter (fun i => negb (is_nan (vnth (if rows then cvals else rvals) i)))
+                        (srt (if rows then cvals else rvals))))
+  | None => True
+  end.
+Proof. exact gen_ScaleMedian__sorted_values. Qed.
+Print Assumptions C14_gen_ScaleMedian__sorted_values.
+
+Theorem C14_gen_ScaleMedian__sorted_counts_rows :
+  match vsrc_ScaleMedian__sorted_counts with
+  | Some e => forall nc C0 C1 rvals cvals srt,
+      argsort_ok cvals (srt cvals) -> List.length cvals = nc ->
+      veval (env_scale "MO.ROWS" (dims_attrs rvals cvals ++ med_attrs_rows nc C0 C1) no_var srt) e
+      = VL [VM (List.length (sort_order cvals srt)) (map (fun r => map (vnth r) (sort_order cvals srt)) C0);
+            VM (List.length (sort_order cvals srt)) (map (fun r => map (vnth r) (sort_order cvals srt)) C1)]
+  | None => True
+  end.
+Proof. exact gen_ScaleMedian__sorted_counts_rows. Qed.
+Print Assumptions C14_gen_ScaleMedian__sorted_counts_rows.
+
+Theorem C14_gen_ScaleMedian__sorted_counts_columns :
+  match vsrc_ScaleMedian__sorted_counts with
+  | Some e => forall nr nc ncs C0 C1 rvals cvals srt,
+      argsort_ok rvals (srt rvals) -> List.length rvals = nr ->
+      List.length C0 = nr -> List.length C1 = nr ->
+      veval (env_scale "MO.COLUMNS" (dims_attrs rvals cvals ++ med_attrs_cols nc ncs C0 C1) no_var srt) e
+      = VL [VM nc (map (fun i => nth i C0 []) (sort_order rvals srt));
+            VM ncs (map (fun i => nth i C1 []) (sort_order rvals srt))]
+  | None => True
+  end.
+Proof. exact gen_ScaleMedian__sorted_counts_columns. Qed.
+Print Assumptions C14_gen_ScaleMedian__sorted_counts_columns.
+
+Theorem C14_gen_ScaleMedian_blocks_rows :
+  match vsrc_ScaleMedian_blocks with
+  | Some e => forall nc C0 C1 rvals cvals srt,
+      vsrc_ScaleMedian__weighted_median <> None ->
+      any_value cvals = true -> argsort_ok cvals (srt cvals) -> List.length cvals = nc ->
+      Forall finite_or_nan cvals ->
+      wf_mat nc C0 -> wf_mat nc C1 -> cells_nonneg C0 -> cells_nonneg C1 ->
+      exists m0 m1,
+        veval (env_scale "MO.ROWS" (dims_attrs rvals cvals ++ med_attrs_rows nc C0 C1) no_var srt) e
+        = VL [VV m0; VV m1]
+        /\ vxeq_l m0 (map (fun r => scale_median_vec (sort_order cvals srt) false r cvals) C0)
+        /\ vxeq_l m1 (map (fun r => scale_median_vec (sort_order cvals srt) false r cvals) C1)
+  | None => True
+  end.
+Proof. exact gen_ScaleMedian_blocks_rows. Qed.
+Print Assumptions C14_gen_ScaleMedian_blocks_rows.
+
+Theorem C14_gen_ScaleMedian_blocks_columns :
+  match vsrc_ScaleMedian_blocks with
+  | Some e => forall nr nc ncs C0 C1 rvals cvals srt,
+      vsrc_ScaleMedian__weighted_median <> None ->
+      any_value rvals = true -> argsort_ok rvals (srt rvals) -> List.length rvals = nr ->
+      Forall finite_or_nan rvals ->
+      wf_mat nc C0 -> wf_mat ncs C1 -> List.length C0 = nr -> List.length C1 = nr ->
+      cells_nonneg C0 -> cells_nonneg C1 ->
+      exists m0 m1,
+        veval (env_scale "MO.COLUMNS" (dims_attrs rvals cvals ++ med_attrs_cols nc ncs C0 C1) no_var srt) e
+        = VL [VV m0; VV m1]
+        /\ vxeq_l m0 (tab nc (fun j => scale_median_vec (sort_order rvals srt) false (mcol C0 j) rvals))
+        /\ vxeq_l m1 (tab ncs (fun j => scale_median_vec (sort_order rvals srt) false (mcol C1 j) rvals))
+  | None => True
+  end.
+Proof. exact gen_ScaleMedian_blocks_columns. Qed.
+Print Assumptions C14_gen_ScaleMedian_blocks_columns.
+
+Theorem C14_gen_stripe_ScaledCounts__has_numeric_value :
+  match vssrc_ScaledCounts__has_numeric_value with
+  | Some e => forall vals counts srt,
+      veval (env_strand vals counts srt) e = VBV (map negb (map is_nan vals))
+  | None => True
+  end.
+Proof. exact gen_stripe_ScaledCounts__has_numeric_value. Qed.
+Print Assumptions C14_gen_stripe_ScaledCounts__has_numeric_value.
+
+Theorem C14_gen_stripe_ScaledCounts__numeric_values :
+  match vssrc_ScaledCounts__numeric_values with
+  | Some e => forall vals counts srt, List.length counts = List.length vals ->
+      veval (env_strand vals counts srt) e = VV (map fst (valued_pairs vals counts))
+  | None => True
+  end.
+Proof. exact gen_stripe_ScaledCounts__numeric_values. Qed.
+Print Assumptions C14_gen_stripe_ScaledCounts__numeric_values.
+
+Theorem C14_gen_stripe_ScaledCounts__weighted_counts :
+  match vssrc_ScaledCounts__weighted_counts with
+  | Some e => forall vals counts srt, List.length counts = List.length vals ->
+      veval (env_strand vals counts srt) e = VV (map snd (valued_pairs vals counts))
+  | None => True
+  end.
+Proof. exact gen_stripe_ScaledCounts__weighted_counts. Qed.
+Print Assumptions C14_gen_stripe_ScaledCounts__weighted_counts.
+
+Theorem C14_gen_stripe_ScaledCounts__total_weighted_count :
+  match vssrc_ScaledCounts__total_weighted_count with
+  | Some e => forall vals counts srt, List.length counts = List.length vals ->
+      veval (env_strand vals counts srt) e = VS (strand_total counts vals)
+  | None => True
+  end.
+Proof. exact gen_stripe_ScaledCounts__total_weighted_count. Qed.
+Print Assumptions C14_gen_stripe_ScaledCounts__total_weighted_count.
+
+Theorem C14_gen_stripe_ScaledCounts__total_scaled_count :
+  match vssrc_ScaledCounts__total_scaled_count with
+  | Some e => forall vals counts srt, List.length counts = List.length vals ->
+      veval (env_strand vals counts srt) e
+      = VS (xsum (map (fun vc => xmul (snd vc) (fst vc)) (valued_pairs vals counts)))
+  | None => True
+  end.
+Proof. exact gen_stripe_ScaledCounts__total_scaled_count. Qed.
+Print Assumptions C14_gen_stripe_ScaledCounts__total_scaled_count.
+
+Theorem C14_gen_stripe_ScaledCounts_scale_mean :
+  match vssrc_ScaledCounts_scale_mean with
+  | Some e => forall vals counts srt, List.length counts = List.length vals ->
+      veval (env_strand vals counts srt) e = opt_val (strand_scale_mean counts vals)
+  | None => True
+  end.
+Proof. exact gen_stripe_ScaledCounts_scale_mean. Qed.
+Print Assumptions C14_gen_stripe_ScaledCounts_scale_mean.
+
+Theorem C14_gen_stripe_ScaledCounts__scale_variance :
+  match vssrc_ScaledCounts__scale_variance with
+  | Some e => forall vals counts srt, List.length counts = List.length vals ->
+      veval (env_strand vals counts srt) e = opt_val (strand_scale_var counts vals)
+  | None => True
+  end.
+Proof. exact gen_stripe_ScaledCounts__scale_variance. Qed.
+Print Assumptions C14_gen_stripe_ScaledCounts__scale_variance.
+
+Theorem C14_gen_stripe_ScaledCounts_scale_stddev :
+  match vssrc_ScaledCounts_scale_stddev with
+  | Some e => forall vals counts srt, List.length counts = List.length vals ->
+      veval (env_strand vals counts srt) e = opt_root (strand_scale_stddev_sq counts vals)
+  | None => True
+  end.
+Proof. exact gen_stripe_ScaledCounts_scale_stddev. Qed.
+Print Assumptions C14_gen_stripe_ScaledCounts_scale_stddev.
+
+Theorem C14_gen_stripe_ScaledCounts_scale_stderr :
+  match vssrc_ScaledCounts_scale_stderr with
+  | Some e => forall vals counts srt, List.length counts = List.length vals ->
+      veval (env_strand vals counts srt) e = opt_root (strand_scale_stderr_sq counts vals)
+  | None => True
+  end.
+Proof. exact gen_stripe_ScaledCounts_scale_stderr. Qed.
+Print Assumptions C14_gen_stripe_ScaledCounts_scale_stderr.
+
+Theorem C14_gen_stripe_ScaledCounts_scale_median :
+  match vssrc_ScaledCounts_scale_median with
+  | Some e => forall vals counts srt, List.length counts = List.length vals ->
+      Forall finite_or_nan vals -> Forall nonneg_count counts ->
+      veval (env_strand vals counts srt) e = opt_val (strand_scale_median counts vals)
+  | None => True
+  end.
+Proof. exact gen_stripe_ScaledCounts_scale_median. Qed.
+Print Assumptions C14_gen_stripe_ScaledCounts_scale_median.
+
+(* non-vacuity: the translated `_weighted_mean` on proportions 1/4 1/4 1/2, values 1 - 3 *)
+Example C14_gen_example :
+  match vsrc_ScaleMean__weighted_mean with
+  | Some e =>
+      veval (mkVenv (var2 "proportions" (VV [Fin (Qmake 1 4); Fin (Qmake 1 4); Fin (Qmake 1 2)])
+                          "values" (VV [Fin 1%Q; NaN; Fin 3%Q])) no_var no_get no_call no_argsort) e
+      = VS (wmean [Fin (Qmake 1 4); Fin (Qmake 1 4); Fin (Qmake 1 2)] [Fin 1%Q; NaN; Fin 3%Q])
+      /\ wmean [Fin (Qmake 1 4); Fin (Qmake 1 4); Fin (Qmake 1 2)] [Fin 1%Q; NaN; Fin 3%Q] =x= Fin (Qmake 7 3)
+  | None => True
+  end.
+Proof. vm_compute. first [exact I | split; reflexivity]. Qed.
+
+End GenAgreeXScale_C14.
+(* ==== END x_scale appendix ==== *)
+
+(* ---- WIRING-APPENDIX:BEGIN (generated by tools/gen_wiring_props.py; do not edit) ---- *)
+From CC Require Proofs.GenAgreeWiring_C14.
+Section Wiring_C14.
+Import Coq.Lists.List Coq.ZArith.ZArith Coq.Strings.String CC.Base.WiringExp CC.Gen.WiringSrc.
+Import ListNotations.
+Local Open Scope string_scope.
+
+Theorem C14_wiring_Slice_columns_scale_mean :
+  wsrc_Slice_columns_scale_mean = Some (w_marginal_of "columns_scale_mean").
+Proof. exact Proofs.GenAgreeWiring_C14.gen_wiring_Slice_columns_scale_mean. Qed.
+Print Assumptions C14_wiring_Slice_columns_scale_mean.
+
+Theorem C14_wiring_Slice_columns_scale_mean_margin :
+  wsrc_Slice_columns_scale_mean_margin = Some (WIf (WCall (WAttr (WGlobal "np") "all") [WCall (WAttr
+      (WGlobal "np") "isnan") [WCall (WAttr (WGlobal "np") "array") [WAttr (WSelf "_rows_dimension")
+      "numeric_values"] [("dtype", WAttr (WGlobal "np") "float64")]] []] []) (WNone) (WBin "/"
+      (WCall (WAttr (WGlobal "np") "nansum") [WBin "*" (WCall (WAttr (WGlobal "np") "array") [WAttr
+      (WSelf "_rows_dimension") "numeric_values"] [("dtype", WAttr (WGlobal "np") "float64")])
+      (WIndex (WIndex (WIndex (WAttr (WAttr (WSelf "_measures") "row_weighted_bases") "blocks")
+      [WInt (0)%Z]) [WInt (0)%Z]) [WSlice (WNone) (WNone); WInt (0)%Z])] []) (WCall (WAttr (WGlobal
+      "np") "sum") [WIndex (WIndex (WIndex (WIndex (WAttr (WAttr (WSelf "_measures")
+      "row_weighted_bases") "blocks") [WInt (0)%Z]) [WInt (0)%Z]) [WSlice (WNone) (WNone); WInt
+      (0)%Z]) [WUn "~" (WCall (WAttr (WGlobal "np") "isnan") [WCall (WAttr (WGlobal "np") "array")
+      [WAttr (WSelf "_rows_dimension") "numeric_values"] [("dtype", WAttr (WGlobal "np")
+      "float64")]] [])]] []))).
+Proof. exact Proofs.GenAgreeWiring_C14.gen_wiring_Slice_columns_scale_mean_margin. Qed.
+Print Assumptions C14_wiring_Slice_columns_scale_mean_margin.
+
+Theorem C14_wiring_Slice_columns_scale_mean_stddev :
+  wsrc_Slice_columns_scale_mean_stddev = Some (w_marginal_of "columns_scale_mean_stddev").
+Proof. exact Proofs.GenAgreeWiring_C14.gen_wiring_Slice_columns_scale_mean_stddev. Qed.
+Print Assumptions C14_wiring_Slice_columns_scale_mean_stddev.
+
+Theorem C14_wiring_Slice_columns_scale_mean_stderr :
+  wsrc_Slice_columns_scale_mean_stderr = Some (w_marginal_of "columns_scale_mean_stderr").
+Proof. exact Proofs.GenAgreeWiring_C14.gen_wiring_Slice_columns_scale_mean_stderr. Qed.
+Print Assumptions C14_wiring_Slice_columns_scale_mean_stderr.
+
+Theorem C14_wiring_Slice_columns_scale_median :
+  wsrc_Slice_columns_scale_median = Some (w_marginal_of "columns_scale_median").
+Proof. exact Proofs.GenAgreeWiring_C14.gen_wiring_Slice_columns_scale_median. Qed.
+Print Assumptions C14_wiring_Slice_columns_scale_median.
+
+Theorem C14_wiring_Slice_columns_scale_median_margin :
+  wsrc_Slice_columns_scale_median_margin = Some (WIf (WCall (WAttr (WGlobal "np") "all") [WCall (WAttr
+      (WGlobal "np") "isnan") [WCall (WAttr (WGlobal "np") "array") [WAttr (WSelf "_rows_dimension")
+      "numeric_values"] [("dtype", WAttr (WGlobal "np") "float64")]] []] []) (WNone) (WIf (WCmp "!="
+      (WAttr (WCall (WAttr (WGlobal "np") "repeat") [WIndex (WCall (WAttr (WGlobal "np") "array")
+      [WAttr (WSelf "_rows_dimension") "numeric_values"] [("dtype", WAttr (WGlobal "np")
+      "float64")]) [WUn "~" (WCall (WAttr (WGlobal "np") "isnan") [WCall (WAttr (WGlobal "np")
+      "array") [WAttr (WSelf "_rows_dimension") "numeric_values"] [("dtype", WAttr (WGlobal "np")
+      "float64")]] [])]; WCall (WAttr (WCall (WAttr (WGlobal "np") "nan_to_num") [WIndex (WIndex
+      (WIndex (WIndex (WAttr (WAttr (WSelf "_measures") "row_weighted_bases") "blocks") [WInt
+      (0)%Z]) [WInt (0)%Z]) [WSlice (WNone) (WNone); WInt (0)%Z]) [WUn "~" (WCall (WAttr (WGlobal
+      "np") "isnan") [WCall (WAttr (WGlobal "np") "array") [WAttr (WSelf "_rows_dimension")
+      "numeric_values"] [("dtype", WAttr (WGlobal "np") "float64")]] [])]] []) "astype") [WStr
+      "int64"] []] []) "size") (WInt (0)%Z)) (WCall (WAttr (WGlobal "np") "median") [WCall (WAttr
+      (WGlobal "np") "repeat") [WIndex (WCall (WAttr (WGlobal "np") "array") [WAttr (WSelf
+      "_rows_dimension") "numeric_values"] [("dtype", WAttr (WGlobal "np") "float64")]) [WUn "~"
+      (WCall (WAttr (WGlobal "np") "isnan") [WCall (WAttr (WGlobal "np") "array") [WAttr (WSelf
+      "_rows_dimension") "numeric_values"] [("dtype", WAttr (WGlobal "np") "float64")]] [])]; WCall
+      (WAttr (WCall (WAttr (WGlobal "np") "nan_to_num") [WIndex (WIndex (WIndex (WIndex (WAttr
+      (WAttr (WSelf "_measures") "row_weighted_bases") "blocks") [WInt (0)%Z]) [WInt (0)%Z]) [WSlice
+      (WNone) (WNone); WInt (0)%Z]) [WUn "~" (WCall (WAttr (WGlobal "np") "isnan") [WCall (WAttr
+      (WGlobal "np") "array") [WAttr (WSelf "_rows_dimension") "numeric_values"] [("dtype", WAttr
+      (WGlobal "np") "float64")]] [])]] []) "astype") [WStr "int64"] []] []] []) (WNone))).
+Proof. exact Proofs.GenAgreeWiring_C14.gen_wiring_Slice_columns_scale_median_margin. Qed.
+Print Assumptions C14_wiring_Slice_columns_scale_median_margin.
+
+Theorem C14_wiring_Slice_has_scale_means :
+  wsrc_Slice_has_scale_means = Some (WIf (WCmp "is not" (WSelf "columns_scale_mean") (WNone)) (WTrue)
+      (WFalse)).
+Proof. exact Proofs.GenAgreeWiring_C14.gen_wiring_Slice_has_scale_means. Qed.
+Print Assumptions C14_wiring_Slice_has_scale_means.
+
+Theorem C14_wiring_Slice_rows_scale_mean :
+  wsrc_Slice_rows_scale_mean = Some (w_marginal_of "rows_scale_mean").
+Proof. exact Proofs.GenAgreeWiring_C14.gen_wiring_Slice_rows_scale_mean. Qed.
+Print Assumptions C14_wiring_Slice_rows_scale_mean.
+
+Theorem C14_wiring_Slice_rows_scale_mean_margin :
+  wsrc_Slice_rows_scale_mean_margin = Some (WIf (WCall (WAttr (WGlobal "np") "all") [WCall (WAttr
+      (WGlobal "np") "isnan") [WCall (WAttr (WGlobal "np") "array") [WAttr (WIndex (WSelf
+      "_dimensions") [WInt (1)%Z]) "numeric_values"] [("dtype", WAttr (WGlobal "np") "float64")]]
+      []] []) (WNone) (WBin "/" (WCall (WAttr (WGlobal "np") "nansum") [WBin "*" (WCall (WAttr
+      (WGlobal "np") "array") [WAttr (WIndex (WSelf "_dimensions") [WInt (1)%Z]) "numeric_values"]
+      [("dtype", WAttr (WGlobal "np") "float64")]) (WIndex (WIndex (WIndex (WAttr (WAttr (WSelf
+      "_measures") "column_weighted_bases") "blocks") [WInt (0)%Z]) [WInt (0)%Z]) [WInt (0)%Z;
+      WSlice (WNone) (WNone)])] []) (WCall (WAttr (WGlobal "np") "sum") [WIndex (WIndex (WIndex
+      (WIndex (WAttr (WAttr (WSelf "_measures") "column_weighted_bases") "blocks") [WInt (0)%Z])
+      [WInt (0)%Z]) [WInt (0)%Z; WSlice (WNone) (WNone)]) [WUn "~" (WCall (WAttr (WGlobal "np")
+      "isnan") [WCall (WAttr (WGlobal "np") "array") [WAttr (WIndex (WSelf "_dimensions") [WInt
+      (1)%Z]) "numeric_values"] [("dtype", WAttr (WGlobal "np") "float64")]] [])]] []))).
+Proof. exact Proofs.GenAgreeWiring_C14.gen_wiring_Slice_rows_scale_mean_margin. Qed.
+Print Assumptions C14_wiring_Slice_rows_scale_mean_margin.
+
+Theorem C14_wiring_Slice_rows_scale_mean_stddev :
+  wsrc_Slice_rows_scale_mean_stddev = Some (w_marginal_of "rows_scale_mean_stddev").
+Proof. exact Proofs.GenAgreeWiring_C14.gen_wiring_Slice_rows_scale_mean_stddev. Qed.
+Print Assumptions C14_wiring_Slice_rows_scale_mean_stddev.
+
+Theorem C14_wiring_Slice_rows_scale_mean_stderr :
+  wsrc_Slice_rows_scale_mean_stderr = Some (w_marginal_of "rows_scale_mean_stderr").
+Proof. exact Proofs.GenAgreeWiring_C14.gen_wiring_Slice_rows_scale_mean_stderr. Qed.
+Print Assumptions C14_wiring_Slice_rows_scale_mean_stderr.
+
+Theorem C14_wiring_Slice_rows_scale_median :
+  wsrc_Slice_rows_scale_median = Some (w_marginal_of "rows_scale_median").
+Proof. exact Proofs.GenAgreeWiring_C14.gen_wiring_Slice_rows_scale_median. Qed.
+Print Assumptions C14_wiring_Slice_rows_scale_median.
+
+Theorem C14_wiring_Slice_rows_scale_median_margin :
+  wsrc_Slice_rows_scale_median_margin = Some (WIf (WCall (WAttr (WGlobal "np") "all") [WCall (WAttr
+      (WGlobal "np") "isnan") [WCall (WAttr (WGlobal "np") "array") [WAttr (WIndex (WSelf
+      "_dimensions") [WInt (1)%Z]) "numeric_values"] [("dtype", WAttr (WGlobal "np") "float64")]]
+      []] []) (WNone) (WIf (WCmp "!=" (WAttr (WCall (WAttr (WGlobal "np") "repeat") [WIndex (WCall
+      (WAttr (WGlobal "np") "array") [WAttr (WIndex (WSelf "_dimensions") [WInt (1)%Z])
+      "numeric_values"] [("dtype", WAttr (WGlobal "np") "float64")]) [WUn "~" (WCall (WAttr (WGlobal
+      "np") "isnan") [WCall (WAttr (WGlobal "np") "array") [WAttr (WIndex (WSelf "_dimensions")
+      [WInt (1)%Z]) "numeric_values"] [("dtype", WAttr (WGlobal "np") "float64")]] [])]; WCall
+      (WAttr (WCall (WAttr (WGlobal "np") "nan_to_num") [WIndex (WIndex (WIndex (WIndex (WAttr
+      (WAttr (WSelf "_measures") "column_weighted_bases") "blocks") [WInt (0)%Z]) [WInt (0)%Z])
+      [WInt (0)%Z; WSlice (WNone) (WNone)]) [WUn "~" (WCall (WAttr (WGlobal "np") "isnan") [WCall
+      (WAttr (WGlobal "np") "array") [WAttr (WIndex (WSelf "_dimensions") [WInt (1)%Z])
+      "numeric_values"] [("dtype", WAttr (WGlobal "np") "float64")]] [])]] []) "astype") [WStr
+      "int64"] []] []) "size") (WInt (0)%Z)) (WCall (WAttr (WGlobal "np") "median") [WCall (WAttr
+      (WGlobal "np") "repeat") [WIndex (WCall (WAttr (WGlobal "np") "array") [WAttr (WIndex (WSelf
+      "_dimensions") [WInt (1)%Z]) "numeric_values"] [("dtype", WAttr (WGlobal "np") "float64")])
+      [WUn "~" (WCall (WAttr (WGlobal "np") "isnan") [WCall (WAttr (WGlobal "np") "array") [WAttr
+      (WIndex (WSelf "_dimensions") [WInt (1)%Z]) "numeric_values"] [("dtype", WAttr (WGlobal "np")
+      "float64")]] [])]; WCall (WAttr (WCall (WAttr (WGlobal "np") "nan_to_num") [WIndex (WIndex
+      (WIndex (WIndex (WAttr (WAttr (WSelf "_measures") "column_weighted_bases") "blocks") [WInt
+      (0)%Z]) [WInt (0)%Z]) [WInt (0)%Z; WSlice (WNone) (WNone)]) [WUn "~" (WCall (WAttr (WGlobal
+      "np") "isnan") [WCall (WAttr (WGlobal "np") "array") [WAttr (WIndex (WSelf "_dimensions")
+      [WInt (1)%Z]) "numeric_values"] [("dtype", WAttr (WGlobal "np") "float64")]] [])]] [])
+      "astype") [WStr "int64"] []] []] []) (WNone))).
+Proof. exact Proofs.GenAgreeWiring_C14.gen_wiring_Slice_rows_scale_median_margin. Qed.
+Print Assumptions C14_wiring_Slice_rows_scale_median_margin.
+
+Theorem C14_wiring_Slice__columns_dimension_numeric_values :
+  wsrc_Slice__columns_dimension_numeric_values = Some (WCall (WAttr (WGlobal "np") "array") [WComp
+      "list" (WIf (WCmp ">=" (WVar "idx") (WInt (0)%Z)) (WAttr (WIndex (WAttr (WIndex (WSelf
+      "_dimensions") [WInt (1)%Z]) "valid_elements") [WVar "idx"]) "numeric_value") (WNaN))
+      [(["idx"], WSelf "_column_order_signed_indexes", [])]] []).
+Proof. exact Proofs.GenAgreeWiring_C14.gen_wiring_Slice__columns_dimension_numeric_values. Qed.
+Print Assumptions C14_wiring_Slice__columns_dimension_numeric_values.
+
+Theorem C14_wiring_Slice__columns_have_numeric_value :
+  wsrc_Slice__columns_have_numeric_value = Some (WUn "not" (WCall (WAttr (WGlobal "np") "all") [WCall
+      (WAttr (WGlobal "np") "isnan") [WSelf "_columns_dimension_numeric_values"] []] [])).
+Proof. exact Proofs.GenAgreeWiring_C14.gen_wiring_Slice__columns_have_numeric_value. Qed.
+Print Assumptions C14_wiring_Slice__columns_have_numeric_value.
+
+Theorem C14_wiring_Slice__columns_scale_mean_variance :
+  wsrc_Slice__columns_scale_mean_variance = Some (WIf (WUn "not" (WSelf "_rows_have_numeric_value"))
+      (WNone) (WBin "/" (WCall (WAttr (WGlobal "np") "nansum") [WBin "*" (WIndex (WSelf "counts")
+      [WUn "~" (WCall (WAttr (WGlobal "np") "isnan") [WSelf "_rows_dimension_numeric_values"] []);
+      WSlice (WNone) (WNone)]) (WAttr (WCall (WGlobal "pow") [WBin "-" (WCall (WAttr (WGlobal "np")
+      "broadcast_to") [WIndex (WSelf "_rows_dimension_numeric_values") [WUn "~" (WCall (WAttr
+      (WGlobal "np") "isnan") [WSelf "_rows_dimension_numeric_values"] [])]; WAttr (WAttr (WIndex
+      (WSelf "counts") [WUn "~" (WCall (WAttr (WGlobal "np") "isnan") [WSelf
+      "_rows_dimension_numeric_values"] []); WSlice (WNone) (WNone)]) "T") "shape"] []) (WCall
+      (WAttr (WSelf "columns_scale_mean") "reshape") [WInt (-1)%Z; WInt (1)%Z] []); WInt (2)%Z] [])
+      "T")] [("axis", WInt (0)%Z)]) (WCall (WAttr (WGlobal "np") "sum") [WIndex (WSelf "counts")
+      [WUn "~" (WCall (WAttr (WGlobal "np") "isnan") [WSelf "_rows_dimension_numeric_values"] []);
+      WSlice (WNone) (WNone)]] [("axis", WInt (0)%Z)]))).
+Proof. exact Proofs.GenAgreeWiring_C14.gen_wiring_Slice__columns_scale_mean_variance. Qed.
+Print Assumptions C14_wiring_Slice__columns_scale_mean_variance.
+
+Theorem C14_wiring_Slice__rows_dimension_numeric_values :
+  wsrc_Slice__rows_dimension_numeric_values = Some (WCall (WAttr (WGlobal "np") "array") [WComp "list"
+      (WIf (WCmp ">=" (WVar "idx") (WInt (0)%Z)) (WAttr (WIndex (WAttr (WSelf "_rows_dimension")
+      "valid_elements") [WVar "idx"]) "numeric_value") (WNaN)) [(["idx"], WSelf
+      "_row_order_signed_indexes", [])]] []).
+Proof. exact Proofs.GenAgreeWiring_C14.gen_wiring_Slice__rows_dimension_numeric_values. Qed.
+Print Assumptions C14_wiring_Slice__rows_dimension_numeric_values.
+
+Theorem C14_wiring_Slice__rows_have_numeric_value :
+  wsrc_Slice__rows_have_numeric_value = Some (WUn "not" (WCall (WAttr (WGlobal "np") "all") [WCall
+      (WAttr (WGlobal "np") "isnan") [WSelf "_rows_dimension_numeric_values"] []] [])).
+Proof. exact Proofs.GenAgreeWiring_C14.gen_wiring_Slice__rows_have_numeric_value. Qed.
+Print Assumptions C14_wiring_Slice__rows_have_numeric_value.
+
+Theorem C14_wiring_Strand_has_scale_means :
+  wsrc_Strand_has_scale_means = Some (WIf (WCmp "is not" (WSelf "scale_mean") (WNone)) (WTrue)
+      (WFalse)).
+Proof. exact Proofs.GenAgreeWiring_C14.gen_wiring_Strand_has_scale_means. Qed.
+Print Assumptions C14_wiring_Strand_has_scale_means.
+
+Theorem C14_wiring_Strand_scale_mean :
+  wsrc_Strand_scale_mean = Some (WAttr (WAttr (WSelf "_measures") "scaled_counts") "scale_mean").
+Proof. exact Proofs.GenAgreeWiring_C14.gen_wiring_Strand_scale_mean. Qed.
+Print Assumptions C14_wiring_Strand_scale_mean.
+
+Theorem C14_wiring_Strand_scale_median :
+  wsrc_Strand_scale_median = Some (WAttr (WAttr (WSelf "_measures") "scaled_counts") "scale_median").
+Proof. exact Proofs.GenAgreeWiring_C14.gen_wiring_Strand_scale_median. Qed.
+Print Assumptions C14_wiring_Strand_scale_median.
+
+Theorem C14_wiring_Strand_scale_std_dev :
+  wsrc_Strand_scale_std_dev = Some (WAttr (WAttr (WSelf "_measures") "scaled_counts") "scale_stddev").
+Proof. exact Proofs.GenAgreeWiring_C14.gen_wiring_Strand_scale_std_dev. Qed.
+Print Assumptions C14_wiring_Strand_scale_std_dev.
+
+Theorem C14_wiring_Strand_scale_std_err :
+  wsrc_Strand_scale_std_err = Some (WAttr (WAttr (WSelf "_measures") "scaled_counts") "scale_stderr").
+Proof. exact Proofs.GenAgreeWiring_C14.gen_wiring_Strand_scale_std_err. Qed.
+Print Assumptions C14_wiring_Strand_scale_std_err.
+
+Theorem C14_wiring_SecondOrderMeasures_columns_scale_mean :
+  wsrc_SecondOrderMeasures_columns_scale_mean = Some (WCall (WGlobal "_ScaleMean") [WSelf
+      "_dimensions"; WVar "self"; WSelf "_cube_measures"; WAttr (WGlobal "MO") "COLUMNS"] []).
+Proof. exact Proofs.GenAgreeWiring_C14.gen_wiring_SecondOrderMeasures_columns_scale_mean. Qed.
+Print Assumptions C14_wiring_SecondOrderMeasures_columns_scale_mean.
+
+Theorem C14_wiring_SecondOrderMeasures_columns_scale_mean_stddev :
+  wsrc_SecondOrderMeasures_columns_scale_mean_stddev = Some (WCall (WGlobal "_ScaleMeanStddev") [WSelf
+      "_dimensions"; WVar "self"; WSelf "_cube_measures"; WAttr (WGlobal "MO") "COLUMNS"] []).
+Proof. exact Proofs.GenAgreeWiring_C14.gen_wiring_SecondOrderMeasures_columns_scale_mean_stddev. Qed.
+Print Assumptions C14_wiring_SecondOrderMeasures_columns_scale_mean_stddev.
+
+Theorem C14_wiring_SecondOrderMeasures_columns_scale_mean_stderr :
+  wsrc_SecondOrderMeasures_columns_scale_mean_stderr = Some (WCall (WGlobal "_ScaleMeanStderr") [WSelf
+      "_dimensions"; WVar "self"; WSelf "_cube_measures"; WAttr (WGlobal "MO") "COLUMNS"] []).
+Proof. exact Proofs.GenAgreeWiring_C14.gen_wiring_SecondOrderMeasures_columns_scale_mean_stderr. Qed.
+Print Assumptions C14_wiring_SecondOrderMeasures_columns_scale_mean_stderr.
+
+Theorem C14_wiring_SecondOrderMeasures_columns_scale_median :
+  wsrc_SecondOrderMeasures_columns_scale_median = Some (WCall (WGlobal "_ScaleMedian") [WSelf
+      "_dimensions"; WVar "self"; WSelf "_cube_measures"; WAttr (WGlobal "MO") "COLUMNS"] []).
+Proof. exact Proofs.GenAgreeWiring_C14.gen_wiring_SecondOrderMeasures_columns_scale_median. Qed.
+Print Assumptions C14_wiring_SecondOrderMeasures_columns_scale_median.
+
+Theorem C14_wiring_SecondOrderMeasures_rows_scale_mean :
+  wsrc_SecondOrderMeasures_rows_scale_mean = Some (WCall (WGlobal "_ScaleMean") [WSelf "_dimensions";
+      WVar "self"; WSelf "_cube_measures"; WAttr (WGlobal "MO") "ROWS"] []).
+Proof. exact Proofs.GenAgreeWiring_C14.gen_wiring_SecondOrderMeasures_rows_scale_mean. Qed.
+Print Assumptions C14_wiring_SecondOrderMeasures_rows_scale_mean.
+
+Theorem C14_wiring_SecondOrderMeasures_rows_scale_mean_stddev :
+  wsrc_SecondOrderMeasures_rows_scale_mean_stddev = Some (WCall (WGlobal "_ScaleMeanStddev") [WSelf
+      "_dimensions"; WVar "self"; WSelf "_cube_measures"; WAttr (WGlobal "MO") "ROWS"] []).
+Proof. exact Proofs.GenAgreeWiring_C14.gen_wiring_SecondOrderMeasures_rows_scale_mean_stddev. Qed.
+Print Assumptions C14_wiring_SecondOrderMeasures_rows_scale_mean_stddev.
+
+Theorem C14_wiring_SecondOrderMeasures_rows_scale_mean_stderr :
+  wsrc_SecondOrderMeasures_rows_scale_mean_stderr = Some (WCall (WGlobal "_ScaleMeanStderr") [WSelf
+      "_dimensions"; WVar "self"; WSelf "_cube_measures"; WAttr (WGlobal "MO") "ROWS"] []).
+Proof. exact Proofs.GenAgreeWiring_C14.gen_wiring_SecondOrderMeasures_rows_scale_mean_stderr. Qed.
+Print Assumptions C14_wiring_SecondOrderMeasures_rows_scale_mean_stderr.
+
+Theorem C14_wiring_SecondOrderMeasures_rows_scale_median :
+  wsrc_SecondOrderMeasures_rows_scale_median = Some (WCall (WGlobal "_ScaleMedian") [WSelf
+      "_dimensions"; WVar "self"; WSelf "_cube_measures"; WAttr (WGlobal "MO") "ROWS"] []).
+Proof. exact Proofs.GenAgreeWiring_C14.gen_wiring_SecondOrderMeasures_rows_scale_median. Qed.
+Print Assumptions C14_wiring_SecondOrderMeasures_rows_scale_median.
+
+Theorem C14_wiring_StripeMeasures_scaled_counts :
+  wsrc_StripeMeasures_scaled_counts = Some (WCall (WGlobal "_ScaledCounts") [WSelf "_rows_dimension";
+      WVar "self"; WSelf "_cube_measures"] []).
+Proof. exact Proofs.GenAgreeWiring_C14.gen_wiring_StripeMeasures_scaled_counts. Qed.
+Print Assumptions C14_wiring_StripeMeasures_scaled_counts.
+
+End Wiring_C14.
+(* ---- WIRING-APPENDIX:END ---- *)
